@@ -33,7 +33,8 @@
 //!     rargs <detached header ids> <detached proposal ids> <gap ids> <proposed ids> <max_ancestors> <max_pool_size>   -> ok
 //!     rlive <out-points live at the old tip>   -> out-points live at the new tip (of those the harness knows)
 //!     rlinks                -> <id>:<descendants '.'-separated>,... `calc_descendants` of every entry pooled before
-//!     rafter <expired ids>  -> <id>:<status>,... the pool after the update and the re-adds, sorted
+//!     rafter <expired ids> <ids left out>  -> <id>:<status>,... the pool after the update and the re-adds, sorted
+//!                           (ids left out: removed groups of remove_by_detached_proposal whose re-add order is not determined, see `tainted`)
 //!     rback                 -> <id>:<0|1>,... per detached-only tx (block order): pooled afterwards?
 //!   (outpoint code = tid*16+idx, genesis cell k = 2000000+k, the always-success code cell = 1000000;
 //!    header id = index in the harness's block table; ok = fee >= min_fee_rate * size / 1000)
@@ -48,6 +49,20 @@
 //! `input-of-detached-parent-not-readmitted` (the parent was committed on the abandoned branch and
 //! could not be re-admitted; nothing evicts its pooled descendants), `stage-gap-outside-window`
 //! (a gap entry whose proposal was in the gap part of the abandoned branch stays gap).
+//!
+//! Round 5: the model answers with `reorgR` (Model/ReorgReadd.lean): `remove_by_detached_proposal`'s
+//! `add_pending` and `readd_detached_tx`'s `_submit_entry` are `PoolMap::add_entry` as written (ancestor
+//! limit, eviction of cell-ref parents with descendants, refusal after an eviction). The directed
+//! families `gen_deep` D1/D2 (cases with max_ancestors 5 or 6) reach those branches. Three causes found
+//! there are SUSPECTED defects reported to the coordinator; until listed they are COUNTED, not failed:
+//! `suspected-pooled-tx-dropped-at-detached-proposal-readd` / `suspected-input-of-parent-dropped-at-
+//! detached-proposal-readd` (sub-class of dead-or-unknown-input: the creator left at a chain change
+//! although nothing committed, consumed, detached or expired it or an ancestor, and it or an ancestor
+//! was a non-pending entry with a detached proposal), `suspected-input-of-evicted-cell-ref-parent`
+//! (sub-class of dead-or-unknown-input/-cell-dep: the missing creator has a cell the user spends as a cell
+//! dep and is not committed), `suspected-lost-tx-evicted-as-cell-ref-parent-of-refused-readd` (sub-class of
+//! lost-tx: the lost transaction or one of its detached-only ancestors has a cell dep that a LATER
+//! detached-only transaction, itself not pooled, spends).
 use crate::common::*;
 use crate::node::*;
 use ckb_app_config::{BlockAssemblerConfig, NetworkConfig, TxPoolConfig};
@@ -155,6 +170,8 @@ struct PEnt {
     desc: Vec<usize>,
     /// `calc_ancestors` of the real link map
     anc: Vec<usize>,
+    /// the maintained statistic `ancestors_count` (the sort key of remove_by_detached_proposal's re-adds)
+    anc_stat: usize,
     timestamp: u64,
 }
 
@@ -184,6 +201,9 @@ struct World {
     ever_detached: HashSet<usize>,
     /// txs dropped by remove_expired
     expired_removed: HashSet<usize>,
+    /// txs that left the pool at a chain change although nothing committed, consumed, detached or
+    /// expired them or an ancestor: taken out by `remove_by_detached_proposal` and refused by its re-add
+    dropped_detached: HashSet<usize>,
     clock: u64,
     guard: ckb_systemtime::FaketimeGuard,
 }
@@ -219,7 +239,7 @@ impl World {
         let gcells = genesis_cells(&consensus);
         let mut block_ids = HashMap::new();
         block_ids.insert(consensus.genesis_hash(), 0);
-        World { dir, cfg, consensus, main, builder, txs: vec![], fees: vec![], code_cell: always_success_dep().out_point(), tid_by_short: HashMap::new(), tid_by_hash: HashMap::new(), gcells, block_ids, salt: 1000, ever_detached: HashSet::new(), expired_removed: HashSet::new(), clock, guard }
+        World { dir, cfg, consensus, main, builder, txs: vec![], fees: vec![], code_cell: always_success_dep().out_point(), tid_by_short: HashMap::new(), tid_by_hash: HashMap::new(), gcells, block_ids, salt: 1000, ever_detached: HashSet::new(), expired_removed: HashSet::new(), dropped_detached: HashSet::new(), clock, guard }
     }
 
     fn finish(self) {
@@ -356,6 +376,7 @@ impl World {
                 size: e.entry.size as u64,
                 desc: ds.iter().map(|x| *self.tid_by_short.get(x).expect("known")).collect(),
                 anc: an.iter().map(|x| *self.tid_by_short.get(x).expect("known")).collect(),
+                anc_stat: e.entry.ancestors_count,
                 timestamp: e.entry.timestamp,
             });
         }
@@ -400,7 +421,7 @@ fn after_chain_change(w: &mut World, out: &mut Out, pre: &Pre) {
     }
     let det_hdr: Vec<usize> = detached.iter().map(|h| w.block_id(h)).collect();
     let known = |s: &HashSet<ProposalShortId>| -> Vec<usize> { s.iter().filter_map(|id| w.tid_by_short.get(id).cloned()).collect() };
-    out.op(&format!("rargs {} {} {} {} {} {}", list(det_hdr), list(det_props), list(known(&new_gap)), list(known(&new_proposed)), w.cfg.max_ancestors, w.cfg.max_pool_size), "ok");
+    out.op(&format!("rargs {} {} {} {} {} {}", list(det_hdr), list(det_props.clone()), list(known(&new_gap)), list(known(&new_proposed)), w.cfg.max_ancestors, w.cfg.max_pool_size), "ok");
     // chain side: live cells before -> live cells after
     out.op(&format!("rlive {}", list(pre.live.clone())), &list(w.live_codes()));
     // links: the descendants the real link map gave every entry pooled before
@@ -415,14 +436,42 @@ fn after_chain_change(w: &mut World, out: &mut Out, pre: &Pre) {
     let now = w.clock;
     let expired: HashSet<usize> = pre.pool.iter().filter(|e| expiry_ms + e.timestamp < now).map(|e| e.tid).collect();
     // everything pooled afterwards is an entry pooled before or a re-added detached-only tx
+    // remove_by_detached_proposal re-adds a removed group in the order of the MAINTAINED statistic
+    // ancestors_count (sort_unstable, the statistic can be stale: C11's F3) and walks the detached ids in
+    // HashSet order; the model uses a canonical parents-first order. The orders only matter when a re-add can
+    // be refused, i.e. when a removed group holds an entry over the ancestor limit. Such a group is compared
+    // strictly when it is the only one, no other removed group overlaps it and the real statistic orders it
+    // parents-first; otherwise its ids are left out of the `rafter` comparison on both sides (counted).
+    let tainted: HashSet<usize> = {
+        let by_tid: HashMap<usize, &PEnt> = pre.pool.iter().map(|e| (e.tid, e)).collect();
+        let group = |r: &PEnt| -> HashSet<usize> { std::iter::once(r.tid).chain(r.desc.iter().cloned()).collect() };
+        let over = |t: &usize| -> bool { by_tid.get(t).map_or(false, |e| e.anc.len() as u64 + 1 > w.cfg.max_ancestors) };
+        let roots: Vec<&PEnt> = pre.pool.iter().filter(|e| e.status != 0 && det_props.contains(&e.tid)).collect();
+        let hot: Vec<&&PEnt> = roots.iter().filter(|r| group(r).iter().any(|t| over(t))).collect();
+        if hot.is_empty() {
+            HashSet::new()
+        } else {
+            let g0 = group(hot[0]);
+            let alone = hot.len() == 1 && roots.iter().all(|r| r.tid == hot[0].tid || group(r).is_disjoint(&g0));
+            let parents_first = g0.iter().all(|t| by_tid.get(t).map_or(true, |e| e.anc.iter().all(|a| !g0.contains(a) || by_tid.get(a).map_or(true, |x| x.anc_stat < e.anc_stat))));
+            if alone && parents_first {
+                out.count("detached-group-over-limit-compared");
+                HashSet::new()
+            } else {
+                out.count("detached-group-over-limit-order-ambiguous");
+                hot.iter().flat_map(|r| group(r)).collect()
+            }
+        }
+    };
     let mut surv: Vec<(usize, u8)> = post.iter().filter(|e| pre_ids.contains(&e.tid) || retain_ids.contains(&e.tid)).map(|e| (e.tid, e.status)).collect();
     if surv.len() != post.len() {
         out.count("pooled-from-elsewhere");
     }
+    surv.retain(|(t, _)| !tainted.contains(t));
     surv.sort();
     let expired_note = if expired.is_empty() { String::new() } else { format!(" expired={}", list(expired.iter().cloned().collect())) };
     // expired entries are dropped by remove_expired: the clock is an input of the model
-    out.op(&format!("rafter {}", list(expired.iter().cloned().collect())), &format!("{}", if surv.is_empty() { "-".to_string() } else { surv.iter().map(|(t, s)| format!("{t}:{s}")).collect::<Vec<_>>().join(",") }));
+    out.op(&format!("rafter {} {}", list(expired.iter().cloned().collect()), list(tainted.iter().cloned().collect())), &format!("{}", if surv.is_empty() { "-".to_string() } else { surv.iter().map(|(t, s)| format!("{t}:{s}")).collect::<Vec<_>>().join(",") }));
     out.op("rback", &if retain_ids.is_empty() { "-".to_string() } else { retain_ids.iter().map(|t| format!("{}:{}", t, post_ids.contains(t) as u8)).collect::<Vec<_>>().join(",") });
     for tid in &retain_ids {
         w.ever_detached.insert(*tid);
@@ -466,15 +515,60 @@ fn after_chain_change(w: &mut World, out: &mut Out, pre: &Pre) {
             out.count("commit-of-part-of-the-pool");
         }
     }
+    // ---- entries that left without a standard cause although they or an ancestor had a detached proposal
+    {
+        let att_tids: HashSet<usize> = att_txs.iter().filter_map(|t| w.tid_by_hash.get(&t.hash()).cloned()).collect();
+        let att_spent: HashSet<u64> = att_txs.iter().flat_map(|t| t.input_pts_iter().map(|op| w.op_code(&op)).collect::<Vec<_>>()).collect();
+        let det_hdr_ids: HashSet<usize> = detached.iter().map(|h| w.block_id(h)).collect();
+        let by_tid: HashMap<usize, &PEnt> = pre.pool.iter().map(|e| (e.tid, e)).collect();
+        let explained = |e: &PEnt| -> bool {
+            att_tids.contains(&e.tid) || expired.contains(&e.tid) || e.spent.iter().chain(e.deps.iter()).any(|o| att_spent.contains(o)) || e.hdeps.iter().any(|h| det_hdr_ids.contains(h))
+        };
+        for e in &pre.pool {
+            if post_ids.contains(&e.tid) {
+                continue;
+            }
+            let line: Vec<&PEnt> = std::iter::once(e).chain(e.anc.iter().filter_map(|a| by_tid.get(a).cloned())).collect();
+            if line.iter().any(|x| explained(x)) {
+                continue;
+            }
+            if line.iter().any(|x| x.status != 0 && det_props.contains(&x.tid)) {
+                w.dropped_detached.insert(e.tid);
+                out.count("suspected-pooled-tx-dropped-at-detached-proposal-readd");
+            }
+        }
+    }
     // ---- oracle on the implementation alone
     let suffix = "";
     let pooled: HashMap<usize, &PEnt> = post.iter().map(|e| (e.tid, e)).collect();
     let mut spent_by: HashMap<u64, usize> = HashMap::new();
     // why an out-point that is neither live nor created in the pool is missing (names the known causes)
-    let missing_class = |w: &World, src: Option<usize>, what: &str| -> String {
+    let missing_class = |w: &World, src: Option<usize>, user: usize, what: &str| -> String {
         let orphaned = src.map_or(false, |t| w.ever_detached.contains(&t) && snap.get_transaction_info(&w.txs[t - 1].hash()).is_none());
         let by_expiry = src.map_or(false, |t| w.expired_removed.contains(&t));
-        if by_expiry { "input-of-expired-parent".to_string() } else if orphaned { "input-of-detached-parent-not-readmitted".to_string() } else { format!("dead-or-unknown-{what}") }
+        // SUSPECTED (reported to the coordinator, counted until listed): the creator was taken out by
+        // remove_by_detached_proposal and its re-add was refused (ancestor limit) while its descendants were re-added
+        let by_detached_readd = src.map_or(false, |t| w.dropped_detached.contains(&t));
+        // SUSPECTED: the creator is a cell-ref parent of the user (it has a cell the user spends as a cell dep):
+        // check_and_record_ancestors evicts it to make room for the user and inserts the user all the same
+        let by_cell_ref_eviction = src.map_or(false, |t| {
+            let spent: HashSet<OutPoint> = w.txs[user - 1].input_pts_iter().collect();
+            snap.get_transaction_info(&w.txs[t - 1].hash()).is_none() && w.txs[t - 1].cell_deps_iter().any(|d| spent.contains(&d.out_point()))
+        });
+        if by_expiry {
+            "input-of-expired-parent".to_string()
+        } else if by_detached_readd {
+            "suspected-input-of-parent-dropped-at-detached-proposal-readd".to_string()
+        } else if by_cell_ref_eviction {
+            "suspected-input-of-evicted-cell-ref-parent".to_string()
+        } else if orphaned {
+            "input-of-detached-parent-not-readmitted".to_string()
+        } else {
+            format!("dead-or-unknown-{what}")
+        }
+    };
+    let report = |out: &mut Out, cls: &str, detail: &str| {
+        if cls.starts_with("suspected-") { out.count(cls) } else { out.oracle_fail(cls, detail) }
     };
     for e in &post {
         let tx = &w.txs[e.tid - 1];
@@ -489,8 +583,8 @@ fn after_chain_change(w: &mut World, out: &mut Out, pre: &Pre) {
             let src = w.tid_by_hash.get(&op.tx_hash()).cloned();
             let in_pool = src.map_or(false, |t| pooled.contains_key(&t));
             if !in_pool && !snap.have_cell(&op) {
-                let cls = missing_class(w, src, "input");
-                out.oracle_fail(&format!("{cls}{suffix}"), &format!("tx{} input {} (tx{:?}) is neither live on the new chain nor an output of a pooled tx{}", e.tid, code, src, expired_note));
+                let cls = missing_class(w, src, e.tid, "input");
+                report(out, &format!("{cls}{suffix}"), &format!("tx{} input {} (tx{:?}) is neither live on the new chain nor an output of a pooled tx{}", e.tid, code, src, expired_note));
             }
         }
         for d in tx.cell_deps_iter() {
@@ -499,8 +593,8 @@ fn after_chain_change(w: &mut World, out: &mut Out, pre: &Pre) {
             let src = w.tid_by_hash.get(&op.tx_hash()).cloned();
             let in_pool = src.map_or(false, |t| pooled.contains_key(&t));
             if !in_pool && !snap.have_cell(&op) {
-                let cls = missing_class(w, src, "cell-dep");
-                out.oracle_fail(&format!("{cls}{suffix}"), &format!("tx{} cell dep {} (tx{:?}) is neither live on the new chain nor an output of a pooled tx{}", e.tid, code, src, expired_note));
+                let cls = missing_class(w, src, e.tid, "cell-dep");
+                report(out, &format!("{cls}{suffix}"), &format!("tx{} cell dep {} (tx{:?}) is neither live on the new chain nor an output of a pooled tx{}", e.tid, code, src, expired_note));
             }
         }
         for h in tx.header_deps_iter() {
@@ -575,7 +669,38 @@ fn after_chain_change(w: &mut World, out: &mut Out, pre: &Pre) {
         if !fee_ok {
             out.count("detached-only-tx-below-min-fee");
         }
-        if resolvable && hdr_ok && within_policy && fee_ok {
+        // SUSPECTED (reported to the coordinator, counted until listed): the transaction was re-added and then
+        // evicted again as a cell-ref parent (or as a descendant of one) of a LATER detached-only transaction
+        // whose own insertion was refused after the eviction (check_and_record_ancestors keeps the evictions)
+        let evicted_as_cell_ref = {
+            let pos = retain.iter().position(|x| x.hash() == t.hash()).unwrap_or(0);
+            let mut line: Vec<&TransactionView> = vec![t];
+            // t and its ancestors among the detached-only transactions before it
+            let mut grew = true;
+            while grew {
+                grew = false;
+                for r in retain.iter().take(pos) {
+                    if line.iter().any(|x| x.hash() == r.hash()) {
+                        continue;
+                    }
+                    let made = r.hash();
+                    if line.iter().any(|x| x.input_pts_iter().chain(x.cell_deps_iter().map(|d| d.out_point())).any(|op| op.tx_hash() == made)) {
+                        line.push(r);
+                        grew = true;
+                    }
+                }
+            }
+            line.iter().any(|x| {
+                let xpos = retain.iter().position(|r| r.hash() == x.hash()).unwrap_or(0);
+                retain.iter().skip(xpos + 1).any(|u| {
+                    let utid = *w.tid_by_hash.get(&u.hash()).expect("harness tx");
+                    !have.contains(&utid) && u.input_pts_iter().any(|op| x.cell_deps_iter().any(|d| d.out_point() == op))
+                })
+            })
+        };
+        if resolvable && hdr_ok && within_policy && fee_ok && evicted_as_cell_ref {
+            out.count("suspected-lost-tx-evicted-as-cell-ref-parent-of-refused-readd");
+        } else if resolvable && hdr_ok && within_policy && fee_ok {
             out.oracle_fail(&format!("lost-tx{suffix}"), &format!("tx{tid} was committed only on the abandoned branch, is resolvable on the new chain + pool, but is not pooled"));
         } else {
             out.count("detached-only-tx-inadmissible");
@@ -1055,6 +1180,117 @@ fn gen_burst(g: &mut Gen, rng: &mut Rng, w_close: u64, w_far: u64) -> Vec<String
     lines
 }
 
+
+/// directed families around the ancestor limit `m` = max_ancestors_count (round 5):
+///  D1  a chain whose head was committed is completed to `m` pooled entries; a reorg re-adds the head
+///      (the tail is now over the limit, nothing checks that); then the proposal of an entry near the
+///      limit is detached (its window expires unused, or the proposing blocks are abandoned):
+///      `remove_by_detached_proposal` takes it out with its descendants and its re-add is refused
+///  D2  everything of a chain a1..a_k, a transaction B that has cell X as a cell dep, and a transaction t
+///      that spends X (B is a cell-ref parent of t) is committed and then detached: the re-add of t is over
+///      the limit only because of B, so `check_and_record_ancestors` evicts B
+///      (V1: B is unrelated otherwise; V2: t also spends an output of B; V3: t also spends an output of a
+///      child of B, the insertion is refused after the eviction)
+fn gen_deep(g: &mut Gen, rng: &mut Rng, w_close: u64, w_far: u64, m: u64) -> Vec<String> {
+    let mut lines: Vec<String> = vec![];
+    let fresh = |g: &Gen, not: &[(usize, usize, u64)]| -> Option<(usize, usize, u64)> { g.free.iter().find(|c| c.0 == 0 && !not.iter().any(|n| n.0 == c.0 && n.1 == c.1)).cloned() };
+    let ext_len = w_close + 1;
+    let out0 = |g: &Gen, t: usize| -> Option<(usize, usize, u64)> { g.free.iter().find(|c| c.0 == t && c.1 == 0).cloned() };
+    if m > 8 || m < 4 {
+        return lines;
+    }
+    if rng.chance(1, 2) {
+        // ---- D1
+        let Some(y) = fresh(g, &[]) else { return lines };
+        let k = rng.range(1, 3) as usize;
+        let Some(l) = gen_emit(g, &[y], &[], 2000, 1, None) else { return lines };
+        let first = g.next_tid - 1;
+        lines.push(l);
+        gen_chain(g, rng, first, k as u64 - 1, &mut lines);
+        if g.next_tid - 1 != first + k - 1 {
+            return lines;
+        }
+        let prefix: Vec<usize> = (first..first + k).collect();
+        lines.push(format!("forkx 0 {} {} {}", ext_len, list_usize(&prefix), list_usize(&prefix)));
+        gen_chain(g, rng, first + k - 1, m, &mut lines);
+        let last = g.next_tid - 1;
+        if last != first + k - 1 + m as usize {
+            return lines;
+        }
+        lines.push(format!("forkx {} {} - -", ext_len, ext_len + 1));
+        // the victim: the first entry over the limit, one of the two before it, or the last one
+        let over_first = first + m as usize;
+        let v = match rng.below(4) {
+            0 | 1 => over_first,
+            2 => over_first - 1 - rng.below(2) as usize,
+            _ => last,
+        };
+        if rng.chance(2, 3) {
+            // proposed by another miner, never committed: the proposal leaves the window
+            lines.push(format!("forkx 0 {} {} -", w_close, v));
+            lines.push(format!("forkx 0 {} - -", w_far - w_close + 1));
+        } else {
+            // proposed on blocks that are abandoned afterwards
+            lines.push(format!("forkx 0 {} {} -", w_close, v));
+            lines.push(format!("forkx {} {} - -", w_close, w_close + 1));
+        }
+    } else {
+        // ---- D2
+        let variant = rng.below(3);
+        let Some(y) = fresh(g, &[]) else { return lines };
+        let Some(x) = fresh(g, &[y]) else { return lines };
+        let Some(z) = fresh(g, &[y, x]) else { return lines };
+        let Some(l) = gen_emit(g, &[y], &[], 2000, 1, None) else { return lines };
+        let a1 = g.next_tid - 1;
+        lines.push(l);
+        lines.push(format!("forkx 0 {} {} {}", ext_len, a1, a1));
+        // V1, V2: a2..a_{m-1}; V3: a2..a_{m-2}
+        let more = if variant == 2 { m - 3 } else { m - 2 };
+        gen_chain(g, rng, a1, more, &mut lines);
+        let a_last = g.next_tid - 1;
+        if a_last != a1 + more as usize {
+            return lines;
+        }
+        let Some(al0) = out0(g, a_last) else { return lines };
+        let fee = *rng.pick(&[1000u64, 2000, 5000]);
+        let t_in: Vec<(usize, usize, u64)>;
+        if variant == 0 {
+            let Some(lb) = gen_emit(g, &[z], &[x], fee, 1, None) else { return lines };
+            lines.push(lb);
+            t_in = vec![al0, x];
+        } else if variant == 1 {
+            let Some(lb) = gen_emit(g, &[al0], &[x], fee, 1, None) else { return lines };
+            let b = g.next_tid - 1;
+            lines.push(lb);
+            let Some(b0) = out0(g, b) else { return lines };
+            t_in = vec![b0, x];
+        } else {
+            let Some(lb) = gen_emit(g, &[z], &[x], fee, 1, None) else { return lines };
+            let b = g.next_tid - 1;
+            lines.push(lb);
+            let Some(b0) = out0(g, b) else { return lines };
+            let Some(lc) = gen_emit(g, &[b0], &[], 2000, 1, None) else { return lines };
+            let c = g.next_tid - 1;
+            lines.push(lc);
+            let Some(c0) = out0(g, c) else { return lines };
+            t_in = vec![al0, c0, x];
+        }
+        let Some(lt) = gen_emit(g, &t_in, &[], 5000, 1, None) else { return lines };
+        let t = g.next_tid - 1;
+        lines.push(lt);
+        let all: Vec<usize> = (a1 + 1..=t).collect();
+        let blocks = (all.len() as u64 + 3) / 4;
+        if blocks > w_far - w_close + 1 {
+            return lines;
+        }
+        let len2 = w_close + blocks;
+        lines.push(format!("forkx 0 {} {} {}", len2, list_usize(&all), list_usize(&all)));
+        let back = ext_len + len2;
+        lines.push(format!("forkx {} {} - -", back, back + 1));
+    }
+    lines
+}
+
 /// the transactions `t` needs committed before it (creators of its inputs and cell deps), `t` last
 fn gen_closure(g: &Gen, t: usize, skip: &HashSet<usize>) -> Option<Vec<usize>> {
     let mut need: Vec<usize> = vec![];
@@ -1165,7 +1401,8 @@ fn gen_case(out: &mut Out, base: &Path, rng: &mut Rng, steps: u64) {
     let w_close = rng.range(1, 2);
     let w_far = w_close + rng.range(1, 3);
     let expiry_case = rng.chance(1, 3);
-    let cfgl = format!("cfg {} {} {} {} {} {}", rng.range(4, 9), w_close, w_far, *rng.pick(&[0u64, 0, 5]), if expiry_case { 1 } else { 12 }, *rng.pick(&[25u64, 25, 6]));
+    let max_anc = *rng.pick(&[25u64, 25, 6, 6, 5]);
+    let cfgl = format!("cfg {} {} {} {} {} {}", rng.range(4, 9), w_close, w_far, *rng.pick(&[0u64, 0, 5]), if expiry_case { 1 } else { 12 }, max_anc);
     out.begin_case(&format!("window={w_close},{w_far} expiry={expiry_case}"));
     let mut w: Option<World> = None;
     exec(&mut w, out, base, &cfgl);
@@ -1175,7 +1412,8 @@ fn gen_case(out: &mut Out, base: &Path, rng: &mut Rng, steps: u64) {
         let r = rng.below(100);
         if r >= 93 && rng.chance(1, 2) {
             // a directed family (several lines)
-            for line in gen_burst(&mut g, rng, w_close, w_far) {
+            let burst = if max_anc <= 8 && rng.chance(2, 3) { gen_deep(&mut g, rng, w_close, w_far, max_anc) } else { gen_burst(&mut g, rng, w_close, w_far) };
+            for line in burst {
                 fp.push(if line.starts_with("forkx") { 'X' } else { (line.as_bytes()[0] as char).to_ascii_uppercase() });
                 exec(&mut w, out, base, &line);
             }
